@@ -252,7 +252,7 @@ Theorem gcommit_grows_step s s' :
 Proof.
   intros I J O H.
   pose proof (inv1_step s s' I O H) as I'.
-  pose proof (step_hist_le s s' I O H) as HL.
+  pose proof (step_hist_le s s' I (overlap_noclash s s' I O H) H) as HL.
   inv_step H; try apply prefix_refl. subst n.
   set (P := firstn k (log (nodes s c))).
   assert (HP : cpre (mkG (upd (nodes s) c (mkN (cur (nodes s c)) (vote (nodes s c)) Leader (log (nodes s c))
@@ -290,4 +290,39 @@ Qed.
 (* the leader logs, hence the log of a node while it leads a term, only grow *)
 Theorem leader_append_only s s' t :
   inv1 s -> Overlap s' -> step s s' -> prefix (tlogs s t) (tlogs s' t).
-Proof. intros I O H. apply (step_hist_le s s' I O H). Qed.
+Proof. intros I O H. apply (step_hist_le s s' I (overlap_noclash s s' I O H) H). Qed.
+
+(* ---------- runs whose steps were checked: no overlap hypothesis ---------- *)
+
+(* every step elects only the first leader of a term and commits only comparably with the committed
+   log; both conditions are decidable on the abstract state and the acceptor checks them *)
+Inductive steps_ok : gstate -> gstate -> Prop :=
+| sok_refl s : steps_ok s s
+| sok_step s1 s2 s3 : steps_ok s1 s2 -> step s2 s3 -> NoClash s2 s3 -> CommitOK s2 s3 -> steps_ok s1 s3.
+
+Lemma steps_ok_steps a b : steps_ok a b -> steps a b.
+Proof. induction 1; [constructor | econstructor; eauto]. Qed.
+
+Theorem steps_ok_inv s s' : inv1 s -> inv2 s -> steps_ok s s' -> inv1 s' /\ inv2 s'.
+Proof.
+  intros I J H. induction H as [|s1 s2 s3 H12 IH H23 NC CO]; auto.
+  destruct (IH I J) as [I2 J2]. split.
+  - eapply inv1_step_nc; eauto.
+  - eapply inv2_step_ok; eauto.
+Qed.
+
+Theorem gcommit_grows_step_ok s s' :
+  inv1 s -> inv2 s -> CommitOK s s' -> step s s' -> prefix (gcommit s) (gcommit s').
+Proof.
+  intros I J CO H. inv_step H; try apply prefix_refl. subst n.
+  assert (Hcmp : prefix (gcommit s) (firstn k (log (nodes s c))) \/ prefix (firstn k (log (nodes s c))) (gcommit s)).
+  { pose proof (CO c H0) as X. simpl in X. rewrite upd_same in X. simpl in X. apply X; auto. }
+  apply (longer_cases _ _ Hcmp).
+Qed.
+
+Theorem gcommit_grows_ok s s' : inv1 s -> inv2 s -> steps_ok s s' -> prefix (gcommit s) (gcommit s').
+Proof.
+  intros I J H. induction H as [|s1 s2 s3 H12 IH H23 NC CO]; [apply prefix_refl|].
+  destruct (steps_ok_inv _ _ I J H12) as [I2 J2].
+  eapply prefix_trans; [apply IH; auto|]. eapply gcommit_grows_step_ok; eauto.
+Qed.
